@@ -694,6 +694,13 @@ pub fn run_shard(ctx: &mut Ctx) {
     let quick_n = 6u64;
     let mut h = 0u64;
     let me = ctx.prop.clone();
+    {
+        // a crash right after a full request queue was drained and acknowledged
+        let n = if ctx.tier == Tier::Quick { 1 } else { 20 };
+        let t0 = ctx.t0;
+        let b = ctx.budget_s;
+        crate::props::maxbatch::run(&mut ctx.out, n, &mut r, &|| util::now_s() - t0 < b);
+    }
     loop {
         if ctx.tier == Tier::Quick && h >= quick_n {
             break;
